@@ -88,6 +88,31 @@ def namesFit (m : Matcher) : List AttrChar → List (List AttrChar) → List Nam
   | c, c' :: cs, n :: ns => fits m c n ∧ namesFit m c' cs ns
   | _, _, _ => False
 
+/-- The one fact about the matcher that the leading-period clause needs (it is `yash_fnmatch`'s
+    `literal_period` rule, property C04; the driver checks it on the table of real answers,
+    `periodDump`): a pattern matches a name that starts with a period only if the pattern itself starts
+    with a period character — unquoted or quoted, both are `.`. -/
+def PeriodRule (m : Matcher) : Prop :=
+  ∀ pcs n, m.isMatch pcs n = true → n.head? = some '.' →
+    pcs.head?.map PatternChar.charValue = some '.'
+
+/-- everything the property says about the name `n` that stands for the component `c`; the last
+    clause is the leading-period rule: a name starting with a period is only matched by a component
+    whose text (quotes removed — so whether that period was quoted or not) starts with a period -/
+def nameClauses (m : Matcher) (c : List AttrChar) (n : Name) : Prop :=
+  match m.kind (toPattern c) with
+  | Kind.invalid => n = removeQuotes c
+  | Kind.literal s => n = s
+  | Kind.pattern =>
+    n ≠ [] ∧ '/' ∉ n ∧ n ≠ dot ∧ n ≠ dotdot ∧ m.isMatch (toPattern c) n = true
+      ∧ (n.head? = some '.' → (removeQuotes c).head? = some '.')
+
+/-- one such name per component -/
+def namesClauses (m : Matcher) : List AttrChar → List (List AttrChar) → List Name → Prop
+  | c, [], [n] => nameClauses m c n
+  | c, c' :: cs, n :: ns => nameClauses m c n ∧ namesClauses m c' cs ns
+  | _, _, _ => False
+
 /-! ### executable brute-force version over a finite set of names -/
 
 /-- candidate names for one component -/
